@@ -374,6 +374,23 @@ def add_equal_ranks(rng, p):
     return q
 
 
+def unblt(text):
+    """inverse of blt() on the texts blt() writes (used to keep minimised failures as a corpus)"""
+    ls = text.split('\n')
+    n, s = map(int, ls[0].split())
+    p = dict(n=n, s=s, wd=[], und=[], lines=[], tie=list(range(1, n + 1)))
+    i = 1
+    while ls[i].startswith('['):
+        w = ls[i].strip('[]').split()
+        key = {'tie': 'tie', 'withdrawn': 'wd', 'undeclared': 'und'}[w[0]]
+        p[key] = [int(x) for x in w[1:]]; i += 1
+    while ls[i].strip() != '0':
+        w = ls[i].split()[:-1]
+        rank = [[int(y) for y in x.split('=')] if '=' in x else int(x) for x in w[1:]]
+        p['lines'].append((int(w[0]), rank)); i += 1
+    return p
+
+
 # ---------------------------------------------------------------------------------------------
 # rendering and denotation
 
